@@ -10,15 +10,26 @@ K = dict(
     GARBAGE=48, ACK_FREQ=49, DGRAM_RECV_BUF=50, DGRAM_SEND_BUF=51, MAX_TIME=52, SERVER_STREAMS=53,
     PACING_BPS=54, DUP_MASK=55, CID_LEN=56, CID_LIFETIME_MS=57, MIGRATION_ALLOWED=58, RESET_AT_BYTES=59,
     STOP_AT_BYTES=60, EARLY_POLL=61, DGRAM_DROP=62, NEW_RWND_AT=63, NEW_RWND=64, SERVER_RWND=65,
-    LINK_MTU_AT=66, LINK_MTU2=67, DROP_MASK_DIR=68,
+    LINK_MTU_AT=66, LINK_MTU2=67, DROP_MASK_DIR=68, FAIR_RUN=69, RECONNECT=70, SERVER_EARLY=71, HOSTILE_AT=72, HOSTILE_KIND=73, HOSTILE_SIDE=74, READ_SERIAL=75, PAD_TO_MTU=76, DGRAM_INTERVAL=77, DGRAM_ALT=78, EARLY_STOP=79, NO_REDO=80, DGRAM_START=81, HOSTILE_TP=82, HOSTILE_TP_SIDE=83,
     CLEAN=900,   # monitor-only flag: the link is loss-free, in-order, constant-delay
     TWIN=901,    # twin-run variant (C20)
+    DELIVER_SMALL=903,
+    ALL_STREAMS_SEEN=904,  # monitor-only: loss-free path, every stream the client opened reaches the server application  # monitor-only: every accepted small datagram must be delivered (loss-free path)
 )
 KN = {v: k for k, v in K.items()}
 
 
+def sanitize(d):
+    """configurations the library does not support (documented): zero-length CIDs allow only one
+    connection per address tuple, so neither several connections nor a warm-up + resumed pair"""
+    if d.get("CID_LEN", 8) == 0 and (d.get("NCONNS", 1) > 1 or d.get("ZERO_RTT", 0) > 0):
+        d["CID_LEN"] = 4
+    return d
+
+
 def case_of(d):
     """dict name->value  ->  case (one op: flat key/value list)"""
+    sanitize(d)
     op = []
     for name in sorted(d, key=lambda n: K[n]):
         op += [K[name], int(d[name])]
@@ -122,7 +133,8 @@ def is_clean(d):
             and d.get("SPOOF", 0) == 0 and d.get("GARBAGE", 0) == 0
             and d.get("LINK_MTU", 1500) >= max(d.get("MTUD_UPPER", 0), d.get("INITIAL_MTU", 1200))
             and d.get("MIGRATE_AT", 0) == 0 and d.get("SILENCE_AFTER", -1) < 0
-            and d.get("LINK_MTU_AT", 0) == 0 and d.get("LATE_US", 0) == 0)
+            and d.get("LINK_MTU_AT", 0) == 0 and d.get("LATE_US", 0) == 0
+            and d.get("ZERO_RTT", 0) == 0 and d.get("HOSTILE_AT", 0) == 0)
 
 
 def trace_stats(cases, outs):
